@@ -132,6 +132,7 @@ func (h *Handler) handleRequest(host *packet.Host, p packet.DHCP4, options packe
 			if lease.State != StateDiscover {
 				lease.State = StateFree
 				lease.Addr.IP = netip.Addr{}
+				h.saveConfig(h.filename) // the binding is gone: do not bring it back at the next start
 			}
 
 			if h.mode == ModeSecondaryServer || (h.mode == ModeSecondaryServerNice && captured) {
